@@ -11,6 +11,8 @@ Never run while another check is running: the checks rebuild from /repo's workin
 import json, os, re, shutil, subprocess, sys, time
 
 ROOT = os.path.dirname(os.path.dirname(os.path.abspath(__file__)))
+# a lane = a private copy of /verif and a private clone of /repo (several evaluations in parallel)
+REPO = os.environ.get("VERIF_REPO", "/repo")
 ENV = dict(os.environ, GOFLAGS="-mod=mod", GOPROXY="off", GOSUMDB="off", GOTOOLCHAIN="local")
 TESTS = ["./p9/...", "./fsimpl/composefs/...", "./fsimpl/localfs/...", "./fsimpl/qids/...", "./fsimpl/staticfs/...", "./vecnet/..."]
 
@@ -39,15 +41,17 @@ def main():
     demo = os.path.join(out, "demo%s_test.go.txt" % n)
     meta_all = json.load(open(os.path.join(out, "meta.json")))
     meta = [m for m in meta_all if str(m.get("change")) == str(n)][0]
-    rc, o = sh(["git", "-C", "/repo", "status", "--porcelain"])
+    rc, o = sh(["git", "-C", REPO, "status", "--porcelain"])
     if o.strip():
         print("refusing: /repo has uncommitted changes:\n" + o)
         return 2
     # ---- 1. confirm in a scratch worktree
     wt = "/tmp/confirm/%s-%s%s" % (pid, label, n)
+    if REPO != "/repo":
+        wt = REPO + "-confirm-%s-%s%s" % (pid, label, n)
     os.makedirs("/tmp/confirm", exist_ok=True)
-    sh(["git", "-C", "/repo", "worktree", "remove", "--force", wt])
-    rc, o = sh(["git", "-C", "/repo", "worktree", "add", wt, "HEAD"])
+    sh(["git", "-C", REPO, "worktree", "remove", "--force", wt])
+    rc, o = sh(["git", "-C", REPO, "worktree", "add", wt, "HEAD"])
     res = {"applies": False}
     try:
         first = open(demo).read().split("\n", 3)
@@ -84,23 +88,23 @@ def main():
         res["confirmed"] = bool(res.get("applies") and res.get("builds") and res.get("suite_passes") and
                                 res["demo_on_unchanged"]["exit"] == 0 and res.get("demo_on_changed", {}).get("exit", 0) != 0)
     finally:
-        sh(["git", "-C", "/repo", "worktree", "remove", "--force", wt])
+        sh(["git", "-C", REPO, "worktree", "remove", "--force", wt])
         shutil.rmtree(wt, ignore_errors=True)
     print(json.dumps(res, indent=1)[:3000])
     # ---- 2. run the checks against it
     verdicts = {}
     if res.get("applies") and res.get("builds"):
-        rc, o = sh(["git", "-C", "/repo", "apply", diff])
+        rc, o = sh(["git", "-C", REPO, "apply", diff])
         try:
             for c in checks:
                 t0 = time.time()
                 p = subprocess.run([os.path.join(ROOT, "check"), c, "--tier", tier], cwd=ROOT, capture_output=True, text=True, timeout=7200,
-                                   env=dict(os.environ, VERIF_NO_EVIDENCE="1"))
+                                   env=dict(os.environ, VERIF_NO_EVIDENCE="1", VERIF_REPO=REPO))
                 lines = [l for l in (p.stdout + p.stderr).split("\n") if l.strip()]
                 verdicts[c] = {"exit": p.returncode, "violation_lines": [l for l in lines if l.startswith("VIOLATION")],
                                "detail": [l for l in lines if l.strip().startswith("- [")][:6], "wall_s": round(time.time() - t0, 1)}
         finally:
-            sh(["git", "-C", "/repo", "checkout", "--", "."])
+            sh(["git", "-C", REPO, "checkout", "--", "."])
     print(json.dumps(verdicts, indent=1)[:3000])
     # ---- 3. keep it
     dst = os.path.join(ROOT, "seeded", "%s-%s%s" % (pid, label, n))
